@@ -36,7 +36,8 @@ Inductive val :=
 | VInt (z : Z)
 | VFlt (bits : Z)          (* IEEE-754 double, by its 64-bit pattern *)
 | VStr (s : str)
-| VList (l : list val).
+| VList (l : list val)
+| VDict (m : list (str * val)).        (* a JSON object that a migration copies into a cell *)
 
 Fixpoint val_eqb (a b : val) : bool :=
   match a, b with
@@ -50,6 +51,13 @@ Fixpoint val_eqb (a b : val) : bool :=
          match l1, l2 with
          | [], [] => true
          | u :: l1', v :: l2' => val_eqb u v && go l1' l2'
+         | _, _ => false
+         end) x y
+  | VDict x, VDict y =>
+      (fix go (l1 l2 : list (str * val)) : bool :=
+         match l1, l2 with
+         | [], [] => true
+         | (k, u) :: l1', (k', v) :: l2' => seqb k k' && val_eqb u v && go l1' l2'
          | _, _ => false
          end) x y
   | _, _ => false
